@@ -8,7 +8,7 @@ import time
 
 from .. import observe, noisy, docmodel, workloads, corpus, probe
 from ..common import h64, short
-from .base import rng, shards, apply_parse_monitors, cover_transitions, outcome_key
+from .base import rng, shards, apply_parse_monitors, cover_transitions, outcome_key, ReusedEnv
 
 ID = "C01"
 LEVEL = "exploration"
@@ -39,7 +39,11 @@ def plan(tier, seed):
     specs += shards("docs", 1000 if q else 50000, 250 if q else 2500, seed)
     specs += shards("faulted", 1500 if q else 50000, 300 if q else 2500, seed)
     specs += shards("splice", 3000 if q else 150000, 500 if q else 5000, seed)
-    specs += shards("corpus", 1, 1, seed, mutations=not q)
+    if q:
+        specs += shards("corpus", 1, 1, seed, mutations=False)
+    else:
+        for part in range(26):
+            specs.append({"family": "corpus", "seed": seed, "n": 1, "mutations": True, "part": part, "parts": 26})
     specs += shards("f1", 1, 1, seed)
     specs.append({"family": "w0", "seed": seed, "n": 1})
     for fam in workloads.SCALING_FAMILIES:
@@ -108,6 +112,7 @@ def run_shard(spec, M):
     seed = spec["seed"]
     if fam in ("hostile", "structured", "noisy", "docs", "faulted", "splice"):
         texts = [g["text"] for g in corpus.good() + corpus.bad()] if fam == "splice" else None
+        env = ReusedEnv(rng(seed, ID, "reuse", fam, spec["shard"]), p_perturb=0.3)
         for i in range(spec["start"], spec["start"] + spec["n"]):
             r = rng(seed, ID, fam, i)
             if fam == "splice":
@@ -125,7 +130,19 @@ def run_shard(spec, M):
                 R = docmodel.render(r, size=r.choice(["small", "medium"]))
                 text, _ = workloads.faulted(r, R)
             case = {"kind": "text", "family": fam, "index": i, "seed": seed, "text": text}
-            check_text(text, M, case, i)
+            fresh = check_text(text, M, case, i)
+            # the same text on objects that have parsed other documents before (typed outcome must not depend on history)
+            stop = i % 4 == 0
+            o = env.parse(text, M, stop=stop)
+            rcase = {"kind": "shard", "spec": spec, "index": i, "text": text}
+            apply_parse_monitors(o, M, rcase, G_DECIDING)
+            if o.status == "ok":
+                st, res, _, _ = observe.compile_observed(o.ast, idgen=env.idgen)
+                M.count("compile_calls")
+                if st != "ok":
+                    M.violation("G1.compile", {"what": "exception escaped Compiler.compile (reused objects)", **res}, rcase)
+            if o.status != "crash" and fresh[stop].status != "crash" and (o.status, o.err_messages()) != (fresh[stop].status, fresh[stop].err_messages()):
+                M.count("advisory.reused_outcome_differs_from_fresh")
             if i % 997 == 0:
                 M.sample({"family": fam, "text": short(text, 300)})
     elif fam == "w0":
@@ -133,7 +150,9 @@ def run_shard(spec, M):
         run_repo_tests_under_monitors(M, G_DECIDING)
     elif fam == "corpus":
         k = 0
-        for g in corpus.good() + corpus.bad():
+        for gi, g in enumerate(corpus.good() + corpus.bad()):
+            if spec.get("parts") and gi % spec["parts"] != spec["part"]:
+                continue
             text = g["text"]
             check_text(text, M, {"kind": "text", "family": "corpus", "path": g["path"], "text": text}, k)
             k += 1
@@ -259,6 +278,9 @@ def run_scaling(spec, M):
 
 
 def replay(case, M):
+    if case.get("kind") == "shard":
+        run_shard(case["spec"], M)
+        return
     if case.get("kind") == "scaling":
         run_scaling({"name": case["name"], "N": case["N"]}, M)
         return
